@@ -64,6 +64,16 @@ CLAIMED = {
             "Send side: the monitor's clause 'rsv1 exactly on the first frame of a compressed message' is checked on every C06 trace with the MessageState extension and by TLC on WsWriterImpl. Receive side: message shapes with every RSV pattern on every frame position, extension attached, StateExtended on/off: IsCompressed() equals RSV1 of the current message's first frame, undisturbed by control frames; the header handed out has RSV1 cleared and RSV2/3 untouched; RSV1 on a continuation or control frame is a protocol error. TLC checks CompState and Refines on WsReaderImpl with the extension.",
             "End-to-end round trip through the compression stack is part of C12's driver.",
             "7/C13"),
+    "C14": ("model_checking",
+            "TLA+ Pmce (RFC 7692 7.1 legality predicate + the negotiator's comparisons) checked exhaustively by TLC; the real Extension/Parameters run on the same complete grid and judged by TLC",
+            "MCPmce: all 324 configurations x all 360 single offers, and all lists of <= 3 offers from 27 representatives, with Reset: every response is a LegalAnswer, at most one offer accepted, the accepted one is the first acceptable alone, Reset makes the negotiator new; Parse(Option(p)) = p for all parameters; the pre-repair comparison is shown to violate Legal (anti-vacuity). The real wsflate.Extension is run on the same complete 116640-pair grid (+ offer lists), Parameters.Parse on valid/unknown/duplicated/ill-valued lists and Parameters.Option on all parameters; TLC judges every record with LegalAnswer / ParseOption / OptionOf.",
+            "Declining is always legal, so a negotiator that accepts less than it could is not flagged. Parameter value strings are abstracted to naturals by the harness.",
+            "7/C14"),
+    "C20": ("model_checking",
+            "explicit TLA+ model of Dial's goroutines (main, watcher, context, timer, deadline-honouring conn) checked by TLC incl. liveness; trace validation of the real Dialer.Dial over a gated net.Conn with forced schedules",
+            "MCDial: every configuration (context kind x timeout relation x NetDial ok/fail/hang x peer responsive/silent-from-i/failing-at-i, K=2) x every interleaving: S1 (nil error => open conn, deadline cleared), S2 (error => closed), S3 (watcher finished, conn never touched after return), S4 (context ended early and I/O nil/timeout => context's error), S5, ConnStable, and Live ((ctx done or timeout fired) ~> returned under weak fairness); the pre-repair model (watcher observes ctx) is shown to violate Live. Real code: 380 forced schedules (cancellation before/inside NetDial, at begin/end of every I/O operation, exactly as the handshake completes; SetDeadline(past) immediate or held until the I/O is over) + 300 (thorough 5000) unforced races, every event sequenced under the gate's mutex, validated against TraceDial with the invisible steps as silent actions; liveness on the real code = returns within 3 s for 30 ms timers.",
+            "Conn and NetDial are harness stubs that honour deadlines/contexts; the Go scheduler decides the unforced race; TLS (wss) dialing is not modelled.",
+            "7/C20"),
 }
 
 PENDING_REASON = "check not built yet in this round (work in progress; planned in DESIGN.md section 7)"
